@@ -9,6 +9,7 @@ package vsearchworld
 import (
 	"context"
 	"fmt"
+	"perkeep.org/pkg/types/camtypes"
 	"sort"
 	"strings"
 	"time"
@@ -87,9 +88,12 @@ type Dir struct {
 type World struct {
 	Blobs map[string]*Blob // by ref string
 	Order []string         // upload order (ref strings)
-	Perms []*Perm
-	Files []*File
-	Dirs  []*Dir
+	// WarmDuringBuild makes Build read the corpus's sorted permanode enumerations after every delivery
+	// (as a server answering queries while blobs arrive would), so that caches exist to go stale.
+	WarmDuringBuild bool
+	Perms           []*Perm
+	Files           []*File
+	Dirs            []*Dir
 }
 
 func New() *World { return &World{Blobs: map[string]*Blob{}} }
@@ -407,6 +411,13 @@ func (w *World) Build() (*Indexed, error) {
 		src.AddBlob(tb)
 		if _, err := idx.ReceiveBlob(ctx, b.Ref, tb.Reader()); err != nil {
 			return nil, fmt.Errorf("ReceiveBlob(%v, type %q): %v", b.Ref, b.Type, err)
+		}
+		if w.WarmDuringBuild {
+			idx.VerifAwaitAsync()
+			idx.RLock()
+			corpus.EnumeratePermanodesCreated(func(camtypes.BlobMeta) bool { return true }, true)
+			corpus.EnumeratePermanodesLastModified(func(camtypes.BlobMeta) bool { return true })
+			idx.RUnlock()
 		}
 	}
 	idx.VerifAwaitAsync()
